@@ -203,15 +203,17 @@ func c15Run(max int) string {
 
 func HarnessC15Spaceless() {
 	m := verifParam("w", 1)
-	w1, w2, w3, w4, w5 := c15Run(m), c15Run(m), c15Run(m), c15Run(m), c15Run(m)
+	w0, w1, w2, w3, w4, w5 := c15Run(m), c15Run(m), c15Run(m), c15Run(m), c15Run(m), c15Run(m)
+	w6 := w0 // the two "bare bracket" positions share one run (keeps the product of runs small)
 	t := c09LetterByte() // a symbolic letter inside the tags and as text
 	ts := string([]byte{t})
-	body := "<" + ts + ">" + w1 + "<b>" + w2 + ts + w3 + "</b>" + w4 + "</" + ts + ">" + w5
+	// q> ... <q : a bare '>' / '<' that does not belong to a tag; the whitespace next to it stays
+	body := "q>" + w0 + "<" + ts + ">" + w1 + "<b>" + w2 + ts + w3 + "</b>" + w4 + "</" + ts + ">" + w5 + "y" + w6 + "<q"
 	verifObserve("body", body)
 	out, ok := render("{% autoescape off %}{% spaceless %}{{ body }}{% endspaceless %}{% endautoescape %}|{% spaceless %}"+w2+"a"+w3+"{% endspaceless %}", Context{"body": body})
 	verifAssert(ok, "spaceless must render")
 	// between two tags: removed (w1, w4); between a tag and text, or after the last tag: kept (w2, w3, w5)
-	want := "<" + ts + "><b>" + w2 + ts + w3 + "</b></" + ts + ">" + w5 + "|" + w2 + "a" + w3
+	want := "q>" + w0 + "<" + ts + "><b>" + w2 + ts + w3 + "</b></" + ts + ">" + w5 + "y" + w6 + "<q" + "|" + w2 + "a" + w3
 	verifObserve("out", out)
 	verifAssert(out == want, "spaceless must remove exactly the whitespace runs between two HTML tags")
 }
